@@ -41,7 +41,35 @@ def make_spec(g, allow):
                 calls.append((cfgno, Call('sajson', g.bad_json().encode(), 's')))
         execs.append((n, calls))
     return dict(cfgs=cfgs, execs=execs, flags={'pct'} if any(b'%' in n for n in names) else set(),
-                reps=r.choice([1, 2]), upd=r.choice([(False, 'true'), (False, '')]))
+                reps=r.choice([1, 2]), upd=r.choice([(False, 'true'), (False, '')]), decoys=r.random() < 0.5 and sum(len(c) for _, c in execs) <= 6)
+
+
+def ordinal_key(spec, cfgno, c):
+    # ordinals count calls per location pattern <name>_%d.snap<ext> (the JSON variant
+    # defaults <ext> to .json, so it has its own sequence unless Ext is set)
+    return (cfgno, c.kind == 'sajson' and spec['cfgs'][cfgno - 1].split()[4] == '-')
+
+
+def decoy_files(spec):
+    """files that are NOT the location of any call of the world but sit right next to one: same name
+    with another / an additional / no extension, a backup suffix, other letter case.  They belong to
+    nobody: no call may read, match, update or remove them."""
+    expected, near = set(), set()
+    for name, calls in spec['execs']:
+        kk = {}
+        for cfgno, c in calls:
+            key = ordinal_key(spec, cfgno, c)
+            kk[key] = kk.get(key, 0) + 1
+            expected.add(sa_suffix(spec['cfgs'][cfgno - 1], name, kk[key], c.kind == 'sajson'))
+            if kk[key] <= 2:
+                near.add(sa_suffix(spec['cfgs'][cfgno - 1], name, kk[key], c.kind == 'sajson'))
+    out = set()
+    for suf in near:
+        stem = suf[:suf.rindex(b'.snap')]
+        for d in (suf + b'.json', suf + b'.txt', suf + b'.bak', suf + b'~', stem, stem + b'.snap', stem + b'.snap.json', stem + b'.snap.yaml',
+                  stem + b'.snapx', stem + b'.SNAP', stem + b'.json', stem[:-1] + b'0' + stem[-1:] + suf[len(stem):]):
+            out.add(d)
+    return sorted(d for d in out - expected if b'%' not in d)
 
 
 def render(tag, spec):
@@ -51,6 +79,16 @@ def render(tag, spec):
     w.add(mode_line(False, ''))
     for c in spec['cfgs']:
         w.add(c)
+    decoys = decoy_files(spec) if spec.get('decoys') else []
+    for d in decoys:
+        w.add('fsput %s %s' % (core.hx(d[1:]), core.hx(b'decoy ' + d)))
+
+    def decoys_intact(fs):
+        for d in decoys:
+            got = [c for p, c in fs.items() if p.endswith(d)]
+            if got != [b'decoy ' + d]:
+                return 'the neighbouring file %r (not the location of any call) was %s' % (d, 'removed' if not got else 'changed to %r' % got[0][:40])
+        return None
     texec = 0
     checks = []
     for rep in range(spec['reps']):
@@ -61,7 +99,7 @@ def render(tag, spec):
             for cfgno, c in calls:
                 # ordinals count calls per location pattern <name>_%d.snap<ext> (the JSON variant
                 # defaults <ext> to .json, so it has its own sequence unless Ext is set)
-                key = (cfgno, c.kind == 'sajson' and spec['cfgs'][cfgno - 1].split()[4] == '-')
+                key = ordinal_key(spec, cfgno, c)
                 kk[key] = kk.get(key, 0) + 1
                 fv = w.add('fmtval ' + core.hx(c.payload)) if c.kind == 'sasnap' and any(ch in c.payload for ch in b'\t\v\f') else None
                 i = w.add(c.op(cfgno, texec))
@@ -99,7 +137,7 @@ def render(tag, spec):
                     return 'op %d: stored standalone JSON is not valid JSON: %s' % (i, e)
                 if fs[hit[0]].endswith(b'\n'):
                     return 'op %d: standalone JSON ends with an added newline' % i
-        return None
+        return decoys_intact(parse_fs(raw))
     ref = w.add('fsdump', ('standalone-file-is-the-value', oracle))
     # update mode replaces the file wholesale; read-only replay passes
     w.add('reset')
@@ -137,7 +175,7 @@ def render(tag, spec):
                 return 'op %d: after an update the file must hold exactly the new value' % i
             if [k2 for k2, _ in Line(ww.impl[i]).events] != ['L']:
                 return 'op %d: expected one `updated` log' % i
-        return None
+        return decoys_intact(parse_fs(raw))
     w.add('fsdump', ('update-replaces-wholesale', oracle2))
     return w
 
@@ -151,6 +189,7 @@ def known(w, p):
 def run(ctx):
     g = Gen(ctx.seed * 1000003 + 19)
     n = 100 if ctx.tier == 'quick' else 2500
-    worlds = [render('c19-%d' % i, make_spec(g, ('pct',) if g.r.random() < 0.1 else ())) for i in range(n)]
+    worlds = [render('c19-%d' % i, make_spec(g, (('pct',) if g.r.random() < 0.1 else ()) + (('punct',) if g.r.random() < 0.5 else ())))
+              for i in range(n)]
     run_suite(ctx, 'match.standalone', worlds, known=known, chunk=100)
     findings.report(ctx, 'C19')
